@@ -738,4 +738,21 @@ theorem reviveArrM_eq (f : Reviver) : ∀ fuel i l, smallObjL l = true → reviv
 end
 
 
+/-! ### Quote -/
+
+theorem goEscChar_eq (c : Nat) (h : htmlChar c = false) : goEscChar c = escChar c := by
+  simp only [htmlChar, Bool.or_eq_false_iff, decide_eq_false_iff_not] at h
+  unfold goEscChar escChar
+  repeat' split
+  all_goals first | rfl | omega
+
+theorem goQuote_eq (s : Str) (h : s.any htmlChar = false) : goQuote s = quote s := by
+  unfold goQuote quote
+  congr 2
+  induction s with
+  | nil => rfl
+  | cons c t ih =>
+    simp only [List.any_cons, Bool.or_eq_false_iff] at h
+    simp [List.flatMap_cons, goEscChar_eq c h.1, ih h.2]
+
 end OttoVerif.C11.Lem
